@@ -24,8 +24,8 @@ CHECKS = {
     "C10": ("E2", "bounded-exhaustive enumeration of a targeted hostile space (dangerous expression x position x boundary operands x widths x driver behaviours) and re-used program corpora under a never-panics / error-item-where-predicted oracle",
             "One dangerous expression (all of / % + - * << >> unary- over 19^2 boundary operand pairs read from the device or as literals; random with bounds -1..3; signExt; variables assigned only in unexecuted while bodies; counters pushed to MAX; bits(0), bits(64)) in each of 8 expression positions for signal widths 1, 2, 63, 64 on input, output and bidirectional signals; drivers returning Z/X, omitting a read output, failing at each call index; the whole C01/C18 program space up to 3 statements under 7 hostile constant answers; every (program, signal list) pair of the C11 menu that with_signals accepts. No panic from construction, next(), vars() or static iteration; division by zero, unassigned variable, empty random range, unimplemented function and Z/X reads are error items exactly where the reference predicts (every binary operator is strict in both operands); everything else yields rows.",
             "Item kinds only (values are C08's); each run observed for 8 next() calls.", "6/C10"),
-    "C13": ("E1", "explicit-state model checking (stateright BFS) with fault/deviation injection at every call index (deviation budget 1), caller carries on after the error",
-            "12 curated programs (flat, clock rows, X+C, loop, device reads, virtual signal, bidirectional, no output in the header, permuted lists) x every first layout (each subset of the outputs, and reversed) x 2 driver variants; at every call the driver may fail (constructor, output-reading, write-only) or depart from its first layout in every listed way (drop each entry, empty answer, append foreign/copy/unsupplied, duplicate over either neighbour, swap, substitute at every position). The very error value must come back from try_iter or as the item of exactly that row; all items before equal the fault-free reference run; a deviating answer at a checked row yields an error item; every returned row anywhere attributes to each signal only a value the driver reported for that signal in that call.",
+    "C13": ("E1", "explicit-state model checking (stateright BFS) with fault/deviation injection at every call index (up to 3-4 deviations per history in the quick tier, 4-6 in the thorough tier), caller carries on after each error",
+            "18 curated programs (flat, clock rows, X+C, loop, device reads, virtual signal, bidirectional, no output in the header, permuted lists) x every first layout (each subset of the outputs, and reversed) x 2 driver variants; at every call the driver may fail (constructor, output-reading, write-only) or depart from its first layout in every listed way (drop each entry, empty answer, append foreign/copy/unsupplied, duplicate over either neighbour, swap, substitute at every position). The very error value must come back from try_iter or as the item of exactly that row; all items before equal the fault-free reference run; a deviating answer at a checked row yields an error item; every returned row anywhere attributes to each signal only a value the driver reported for that signal in that call.",
             "One deviation per history is complete for callers that stop at the first error; the exploration also carries on to check later rows.", "6/C13"),
     "C14": ("E1", "explicit-state model checking (stateright BFS) of programs with declarations under every per-call answer pair, lock-step with the reference interpreter",
             "Every declaration set (V in {none, Q+1, Q*2+R, 7, (Q<<60)} x W in {none, !R, Q=R}) x 5 placements x 5 shadowing variants x 4 headers that bind, x 2 driver variants, every output-reading call answering (Q,R) in {0,1,2,Z,X}^2, caller carrying on after error items. In every checked row each declaration appears after the real outputs as a 64-bit entry whose value is the expression over this call's answer with variables invisible and whose expected value is its column's entry or X; a Z/X operand makes exactly that next() an error item (never at construction, never a panic).",
